@@ -66,10 +66,11 @@ def run_one(args):
     from sa.props import PROPS
     fired = {}
     errors = {}
+    allobl = {}
     try:
         model = Model('/repo', {modname: code})
     except AnalysisError as e:
-        return dict(it, fired={}, errors={'model': str(e)})
+        return dict(it, fired={}, errors={'model': str(e)}, props=[], error_props=sorted(PROPS))
     for rid in RULES:
         try:
             obls = report.run_rule(rid, model)
@@ -79,6 +80,7 @@ def run_one(args):
         except Exception as e:
             errors[rid] = 'crash %s: %s' % (type(e).__name__, str(e)[:100])
             continue
+        allobl[rid] = obls
         floor = RULES[rid][2]
         if len(obls) < floor:
             errors[rid] = 'floor %d > %d' % (floor, len(obls))
@@ -88,9 +90,28 @@ def run_one(args):
             fired[rid] = v[0].construct[:80]
         if u:
             errors[rid] = 'undecided: ' + u[0].construct[:60]
-    props = sorted(p for p, d in PROPS.items() if any(r in fired for r in d['rules']))
-    eprops = sorted(p for p, d in PROPS.items() if any(r in errors for r in d['rules']))
-    return dict(it, fired=fired, errors=errors, props=props, error_props=eprops)
+    import re
+    props, eprops = [], []
+    for p, d in PROPS.items():
+        hit = err = False
+        for spec in d['rules']:
+            rid, flt = (spec, None) if isinstance(spec, str) else (spec[0], re.compile(spec[1]))
+            if rid in errors and rid not in allobl:
+                err = True
+            for o in allobl.get(rid, []):
+                if flt is not None and not flt.search('%s :: %s' % (o.func, o.construct)):
+                    continue
+                if o.status == VIOL and rid != 'P23':
+                    hit = True
+                if o.status == UNDEC:
+                    err = True
+            if rid in errors and errors[rid].startswith('floor'):
+                err = True
+        if hit:
+            props.append(p)
+        elif err:
+            eprops.append(p)
+    return dict(it, fired=fired, errors=errors, props=sorted(props), error_props=sorted(eprops))
 
 
 def main():
